@@ -2,6 +2,7 @@
 from __future__ import annotations
 
 import random as _random
+import struct
 
 import someip.config as C
 import someip.header as H
@@ -144,24 +145,23 @@ class Twin:
 
 def split_decodable(data):
     """the SD notifications inside a datagram that the property counts as decodable, re-encoded one per datagram;
-    entries stripped when the unicast flag is clear"""
+    entries stripped when the unicast flag is clear.  Framing is judged by an INDEPENDENT reader of the SOME/IP
+    header (not by the decoder under test); the SD payload by the SD decoder (whose own totality / soundness is the
+    decoder half of this property and of C02/C20)."""
     out = []
-    while data:
-        try:
-            m, data = H.SOMEIPHeader.parse(data)
-        except H.ParseError:
-            break
-        if (m.service_id, m.method_id, m.interface_version, m.return_code, m.message_type) != (
-                H.SD_SERVICE, H.SD_METHOD, 1, H.SOMEIPReturnCode.E_OK, H.SOMEIPMessageType.NOTIFICATION):
+    for sid, mid, _length, cid, sess, pv, iv, mt, rc, payload in sdio.indep_split_someip(data):
+        if (sid, mid, iv, rc, mt) != (0xFFFF, 0x8100, 1, 0, 2):
             continue
         try:
-            sd, _rest = H.SOMEIPSDHeader.parse(m.payload)
+            sd, _rest = H.SOMEIPSDHeader.parse(payload)
             sd.resolve_options()
         except (H.ParseError, UnicodeError):
             continue
         if not sd.flag_unicast:
             stripped = H.SOMEIPSDHeader(entries=(), flag_reboot=sd.flag_reboot, flag_unicast=False, flags_unknown=sd.flags_unknown)
-            m = __import__("dataclasses").replace(m, payload=bytes(stripped.build()))
+            payload = bytes(stripped.build())
+        m = H.SOMEIPHeader(service_id=sid, method_id=mid, client_id=cid, session_id=sess, interface_version=iv,
+                           message_type=H.SOMEIPMessageType(mt), return_code=H.SOMEIPReturnCode(rc), payload=payload)
         out.append(m.build())
     return out
 
@@ -302,7 +302,11 @@ def run(ctx: core.Ctx) -> core.Report:
                     val = {"service_id": 0x1234, "method_id": 0x8101, "interface_version": 2,
                            "message_type": H.SOMEIPMessageType.REQUEST, "return_code": H.SOMEIPReturnCode.E_NOT_OK}[fld]
                     data, k = __import__("dataclasses").replace(m, **{fld: val}).build(), "foreign:" + fld
-                elif kk < 0.45 and b"k=v" in whole:
+                elif kk < 0.38:
+                    # SOME/IP length field below 8 / slightly wrong, followed by a few junk bytes
+                    ln = rng.choice([0, 1, 4, 7, 7, 9])
+                    data, k = whole[:4] + struct.pack("!I", ln) + whole[8:] + gen.rbytes(rng, max(0, 8 - ln)), "someip-length"
+                elif kk < 0.5 and b"k=v" in whole:
                     # non-ASCII byte inside a configuration string of an otherwise valid SD message
                     j = whole.index(b"k=v") + rng.choice([0, 2])
                     data, k = whole[:j] + bytes([whole[j] | 0x80]) + whole[j + 1:], "config-nonascii"
